@@ -1161,4 +1161,166 @@ theorem copy_multi_remove_moves {w w' : World} {d s : Nat} {ids : IDs} {ex : Boo
           rw [a1, a2, get_total (pos_lt hP)]
           cases (C.has k != ex) <;> simp
 
+/-! ### phase views as operands -/
+
+/-- what an operand holds of chemical `c` (a phase view: the row of its phase, read in the parent's package) -/
+def refAmount (w : World) : Ref → Nat → Rat
+  | .strm i, c => w.amount i c
+  | .view j p, c =>
+    match w.strms[j]? with
+    | some s =>
+      if s.multi then
+        match resolve s.ph p with
+        | some q => rowKey (w.pkgOf s) (rowOf s.ph q) c
+        | none => 0
+      else w.amount j c
+    | none => 0
+
+/-- `w1` extends `w`: same packages, the streams of `w` unchanged (temporaries may follow) -/
+def Ext (w w1 : World) : Prop := w1.pkgs = w.pkgs ∧ ∀ j, j < w.strms.length → w1.strms[j]? = w.strms[j]?
+
+theorem Ext.refl (w : World) : Ext w w := ⟨rfl, fun _ _ => rfl⟩
+
+theorem lt_length_of_getElem? {α : Type} {l : List α} {i : Nat} {a : α} (h : l[i]? = some a) : i < l.length := by
+  rcases Nat.lt_or_ge i l.length with h' | h'
+  · exact h'
+  · rw [List.getElem?_eq_none h'] at h; cases h
+
+theorem Ext.length_le {w w1 : World} (h : Ext w w1) : w.strms.length ≤ w1.strms.length := by
+  rcases Nat.lt_or_ge w1.strms.length w.strms.length with hlt | hge
+  · exfalso
+    have := h.2 w1.strms.length hlt
+    rw [List.getElem?_eq_none (Nat.le_refl _)] at this
+    rw [List.getElem?_eq_getElem hlt] at this
+    cases this
+  · exact hge
+
+theorem Ext.trans {w w1 w2 : World} (h1 : Ext w w1) (h2 : Ext w1 w2) : Ext w w2 :=
+  ⟨h2.1.trans h1.1, fun j hj => (h2.2 j (Nat.lt_of_lt_of_le hj h1.length_le)).trans (h1.2 j hj)⟩
+
+theorem Ext.amount {w w1 : World} (h : Ext w w1) {i : Nat} (hi : i < w.strms.length) (c : Nat) :
+    w1.amount i c = w.amount i c := amount_congr h.1 (h.2 i hi) c
+
+theorem Ext.append (w : World) (s : Strm) : Ext w { w with strms := w.strms ++ [s] } :=
+  ⟨rfl, fun j hj => by simp [List.getElem?_append_left hj]⟩
+
+theorem refAmount_ext {w w1 : World} (h : Ext w w1) {r : Ref} (hv : r.valid w.strms.length = true) (c : Nat) :
+    refAmount w1 r c = refAmount w r c := by
+  cases r with
+  | strm i =>
+    simp only [Ref.valid, decide_eq_true_eq] at hv
+    exact h.amount hv c
+  | view j p =>
+    simp only [Ref.valid, decide_eq_true_eq] at hv
+    simp only [refAmount]
+    rw [h.2 j hv]
+    cases hs : w.strms[j]? with
+    | none => rfl
+    | some s =>
+      simp only []
+      have hp : w1.pkgOf s = w.pkgOf s := by unfold World.pkgOf; rw [h.1]
+      rw [hp, h.amount hv c]
+
+/-- binding an operand only appends a temporary, and the index it returns holds what the operand held -/
+theorem bind_spec {w w1 : World} {r : Ref} {i : Nat} (h : w.bind r = .ok (w1, i))
+    (hv : r.valid w.strms.length = true) (c : Nat) :
+    Ext w w1 ∧ i < w1.strms.length ∧ w1.amount i c = refAmount w r c := by
+  cases r with
+  | strm i0 =>
+    simp only [World.bind] at h
+    cases h
+    simp only [Ref.valid, decide_eq_true_eq] at hv
+    exact ⟨Ext.refl w, hv, rfl⟩
+  | view j p =>
+    simp only [World.bind] at h
+    obtain ⟨s, hs, h⟩ := bind_ok.mp h
+    have hs' := get?_ok.mp hs
+    simp only [refAmount]
+    rw [hs']
+    split at h
+    · rename_i hm
+      simp only [hm, if_true]
+      split at h
+      · cases h
+      · rename_i q hq
+        cases h
+        rw [hq]
+        refine ⟨Ext.append w _, by simp, ?_⟩
+        rw [amount_append_new, amount_eq_key]
+        have e : w.pkgOf { pkg := s.pkg, multi := false, ph := [(p, rowOf s.ph q)] } = w.pkgOf s := rfl
+        rw [e, key_single]
+    · rename_i hm
+      simp only [hm]
+      split at h
+      · cases h
+        exact ⟨Ext.refl w, lt_length_of_getElem? hs', by simp⟩
+      · cases h
+
+theorem bindAll_spec {w : World} (c : Nat) :
+    ∀ (rs : List Ref) (w1 w2 : World) (is : List Nat), Ext w w1 → w1.bindAll rs = .ok (w2, is) →
+      rs.all (Ref.valid w.strms.length) = true →
+      Ext w1 w2 ∧ rsum (is.map (fun i => w2.amount i c)) = rsum (rs.map (fun r => refAmount w r c)) := by
+  intro rs
+  induction rs with
+  | nil =>
+    intro w1 w2 is _ h _
+    simp only [World.bindAll] at h
+    cases h
+    exact ⟨Ext.refl _, rfl⟩
+  | cons r rs ih =>
+    intro w1 w2 is hext h hv
+    unfold World.bindAll at h
+    obtain ⟨⟨wa, i⟩, hb, h⟩ := bind_ok.mp h
+    simp only [] at h
+    obtain ⟨⟨wb, is'⟩, hbs, h⟩ := bind_ok.mp h
+    simp only [] at h
+    cases h
+    simp only [List.all_cons, Bool.and_eq_true] at hv
+    have hv1 : r.valid w1.strms.length = true := by
+      cases r with
+      | strm i0 => simp only [Ref.valid, decide_eq_true_eq] at hv ⊢; exact Nat.lt_of_lt_of_le hv.1 hext.length_le
+      | view j p => simp only [Ref.valid, decide_eq_true_eq] at hv ⊢; exact Nat.lt_of_lt_of_le hv.1 hext.length_le
+    obtain ⟨e1, hi, ha⟩ := bind_spec hb hv1 c
+    obtain ⟨e2, hsum⟩ := ih wa _ is' (hext.trans e1) hbs hv.2
+    refine ⟨e1.trans e2, ?_⟩
+    simp only [List.map_cons, rsum_cons, hsum]
+    rw [e2.amount hi c, ha, refAmount_ext hext hv.1 c]
+
+theorem amount_trim {w : World} {n i : Nat} (hi : i < n) (c : Nat) : (w.trim n).amount i c = w.amount i c := by
+  unfold World.amount World.trim
+  simp [List.getElem?_take, hi]; rfl
+
+/-- **Separating with a phase view as the stream to take out** (`ms.separate_out(ms['g'])`, or a view of any
+other stream): `x` goes down by exactly what the view holds — the other phases of `x` stay. -/
+theorem sepR_total {w w' : World} {x : Nat} {y : Ref} (h : sepR w x y = .ok w') (hx : x < w.strms.length)
+    (c : Nat) : w'.amount x c = w.amount x c - refAmount w y c := by
+  unfold sepR at h
+  split at h
+  · cases h
+  · rename_i hv
+    simp only [Bool.not_eq_true, Bool.not_eq_false'] at hv
+    obtain ⟨⟨w1, yi⟩, hb, h⟩ := bind_ok.mp h
+    simp only [] at h
+    obtain ⟨w2, hs, h⟩ := bind_ok.mp h
+    cases h
+    obtain ⟨e1, _, ha⟩ := bind_spec hb (by simpa using hv) c
+    rw [amount_trim hx, sep_total hs, e1.amount hx, ha]
+
+/-- **Mixing with phase views among the inlets** (also views of the receiver itself): the receiver holds the
+sum of what the operands held. -/
+theorem mixR_total {w w' : World} {r : Nat} {ins : List Ref} (h : mixR w r ins = .ok w')
+    (hr : r < w.strms.length) (c : Nat) :
+    w'.amount r c = rsum (ins.map (fun x => refAmount w x c)) := by
+  unfold mixR at h
+  split at h
+  · cases h
+  · rename_i hv
+    simp only [Bool.not_eq_true, Bool.not_eq_false'] at hv
+    obtain ⟨⟨w1, is⟩, hb, h⟩ := bind_ok.mp h
+    simp only [] at h
+    obtain ⟨w2, hm, h⟩ := bind_ok.mp h
+    cases h
+    obtain ⟨_, hsum⟩ := bindAll_spec c ins w w1 is (Ext.refl w) hb (by simpa using hv)
+    rw [amount_trim hr, mix_total hm, hsum]
+
 end ThermoVerif.FlowOps
